@@ -337,6 +337,14 @@ def cases(ctx):
         yield "case-twins", sh, None
         yield "case-twins", rename(sh, {"Wifi": "wifi", "Net": "net", "radio": "Radio"}), None
         yield "case-twins", rename(sh, {"Wifi": "WIFI", "Net": "NET", "radio": "RADIO"}), None
+    # case twins INSIDE one constraint: clauses of one shape over names that differ only in letter case (whatever removes
+    # "repeated" clauses by Constraint equality, which ignores case, drops one of them)
+    A, a, B, b = T("Ab"), T("ab"), T("Cd"), T("cD")
+    for sh in (OP("AND", OP("OR", A, b), OP("OR", a, B)), OP("AND", OP("IMPLIES", A, B), OP("IMPLIES", a, b)),
+               OP("AND", OP("AND", OP("OR", A, B), OP("OR", a, B)), OP("OR", A, b)),
+               OP("IMPLIES", OP("OR", A, a), OP("AND", B, b)), OP("AND", OP("EXCLUDES", A, B), OP("EXCLUDES", a, b)),
+               OP("OR", OP("AND", A, b), OP("AND", a, B))):
+        yield "case-twins-inside", sh, None
     # aggregates with the optional second operand (the scoping feature), alone and nested
     for agg in ("SUM", "AVG"):
         two = OP(agg, T("price"), T("Storage"))
